@@ -613,21 +613,52 @@ func Close[T any](ch chan<- T) {
 }
 
 // SelCase describes one case of a select statement.
-type SelCase struct{ c selCase }
+type SelCase struct {
+	c        selCase
+	rch, rv  reflect.Value // the real channel and value (used only outside a controlled execution)
+}
 
 func CaseRecv[T any](ch <-chan T) SelCase {
 	id, cp := chanID(ch)
-	return SelCase{selCase{ch: id, cap: cp}}
+	return SelCase{c: selCase{ch: id, cap: cp}, rch: reflect.ValueOf(ch)}
 }
 func CaseSend[T any](ch chan<- T, v T) SelCase {
 	id, cp := chanID(ch)
-	return SelCase{selCase{send: true, ch: id, cap: cp, val: v}}
+	return SelCase{c: selCase{send: true, ch: id, cap: cp, val: v}, rch: reflect.ValueOf(ch), rv: reflect.ValueOf(&v).Elem()}
+}
+
+// outside a controlled execution (reference runs of the driver, which are sequential) a select is a real select
+var (
+	uncMu   sync.Mutex
+	uncRecv = map[uintptr]reflect.Value{} // goroutine id is not available: keyed by channel id, read back by SelRecv at once
+	uncOK   = map[uintptr]bool{}
+)
+
+func realSelect(hasDefault bool, cases []SelCase) int {
+	var rc []reflect.SelectCase
+	for _, c := range cases {
+		if c.c.send {
+			rc = append(rc, reflect.SelectCase{Dir: reflect.SelectSend, Chan: c.rch, Send: c.rv})
+		} else {
+			rc = append(rc, reflect.SelectCase{Dir: reflect.SelectRecv, Chan: c.rch})
+		}
+	}
+	if hasDefault {
+		rc = append(rc, reflect.SelectCase{Dir: reflect.SelectDefault})
+	}
+	i, v, ok := reflect.Select(rc)
+	if i < len(cases) && !cases[i].c.send {
+		uncMu.Lock()
+		uncRecv[cases[i].c.ch], uncOK[cases[i].c.ch] = v, ok
+		uncMu.Unlock()
+	}
+	return i
 }
 
 // Select blocks until one case can proceed and returns its index; hasDefault: index len(cases) is the default branch.
 func Select(hasDefault bool, cases ...SelCase) int {
 	if cur == nil {
-		panic("vsched.Select outside a controlled execution")
+		return realSelect(hasDefault, cases)
 	}
 	o := &op{kind: opSelect, hasDef: hasDefault}
 	for _, c := range cases {
@@ -639,8 +670,20 @@ func Select(hasDefault bool, cases ...SelCase) int {
 
 // SelRecv returns the value received by the select case just taken.
 func SelRecv[T any](ch <-chan T) (T, bool) {
-	g := cur.running
 	var zero T
+	if cur == nil {
+		id, _ := chanID(ch)
+		uncMu.Lock()
+		v, ok := uncRecv[id], uncOK[id]
+		delete(uncRecv, id)
+		uncMu.Unlock()
+		if !ok || !v.IsValid() {
+			return zero, false
+		}
+		t, _ := v.Interface().(T)
+		return t, true
+	}
+	g := cur.running
 	if !g.recvOK {
 		return zero, false
 	}
